@@ -28,6 +28,14 @@ theorem gen_halves : Cfg.gen.fragHalvesEveryRound = true := by decide
 theorem gen_raw : Cfg.gen.rawOnSuccess = true := by decide
 theorem gen_mismatch : Cfg.gen.downMismatchIsError = true := by decide
 
+/-- the two repairs that are not part of the decision logic are present in the source: the fragment
+    size probe is padded to the longest question (so that `C11_fragment_probe_monotone`'s hypothesis
+    "probed with the maximal name length" describes the code), and an answer without data is rejected
+    before it is indexed (so that no probe outcome is a client panic). -/
+theorem C11_repairs_in_source :
+    SA.Gen.C11.fragProbePadded = true ∧ SA.Gen.C11.emptyAnswerChecked = true ∧
+    SA.Gen.C11.fragClampsStep = true := by decide
+
 /-! ### termination -/
 
 /-- Fragment size search of any configuration with the repaired shape (range halved every round, loop
@@ -344,6 +352,7 @@ example : ∃ p tr, handshake Cfg.gen txtFolded 11 = (.ok p, tr) ∧ p.down = .b
 
 end SA.DnsHandshake
 
+#print axioms SA.DnsHandshake.C11_repairs_in_source
 #print axioms SA.DnsHandshake.C11_terminates
 #print axioms SA.DnsHandshake.C11_terminates_search
 #print axioms SA.DnsHandshake.C11_terminates_search_general
